@@ -18,6 +18,10 @@ def suites : List (String × (String → String → CaseResult)) :=
   [("memory", MemorySuite.runCase)] ++
   [("cmp", CmpSuite.runCase)] ++
   [("mapops", MapSuite.runCase)] ++
+  [("parse", ParseSuite.runCase .c08)] ++
+  [("parse15", ParseSuite.runCase .c15)] ++
+  [("format", FormatSuite.runCase .c02)] ++
+  [("format03", FormatSuite.runCase .c03)] ++
   []
 
 structure DAcc where
